@@ -183,6 +183,23 @@ PROPS["C17"] = dict(extra=extra_c17, module="Grenad.Props.C17", streams={"sorter
 PROPS["C18"] = dict(module="Grenad.Props.C18", streams={"unsorted": (960, 28800)}, rules={"ops": ["ins", "finish"], "blocks": True})
 
 
+# ---------------------------------------------------------------- translator tie (DESIGN.md §3.5)
+# SrcTie module -> (generated module, names that must be translated for the tie to apply)
+SRCTIE = {
+    "Grenad.SrcTie.Varint": ("SrcVarint", ["varint_length_packed", "varint_encode32", "varint_decode32"]),
+    "Grenad.SrcTie.Meta": ("SrcMeta", ["CompressionType", "CompressionType.from_u8", "MAGIC_V1", "MAGIC_V2", "METADATA_V1_SIZE",
+                                       "METADATA_V2_SIZE", "FileVersion", "Metadata", "Metadata.read_from", "Metadata.write_into"]),
+    "Grenad.SrcTie.IterRange": ("SrcIter", ["end_contains", "start_contains"]),
+    "Grenad.SrcTie.IterPrefix": ("SrcIter", ["advance_key"]),
+    "Grenad.SrcTie.Block": ("SrcBlock", ["Block", "Block.payload", "Block.entry_at", "varint_decode32", "varint_length_packed", "CompressionType"]),
+    "Grenad.SrcTie.BlockWriter": ("SrcBlockWriter", ["BlockWriter", "BlockWriter.reset", "BlockWriter.current_size_estimate",
+                                                     "BlockWriter.insert", "BlockWriter.finish", "varint_encode32"]),
+}
+for _p, _mods in {"C14": ["Varint", "Block"], "C13": ["Meta"], "C10": ["Meta"], "C09": ["Meta", "BlockWriter", "Varint"], "C04": ["IterRange"],
+                  "C05": ["IterPrefix"], "C18": ["BlockWriter"], "C15": ["BlockWriter"], "C01": ["BlockWriter", "Varint", "Meta", "Block"]}.items():
+    PROPS[_p]["srctie"] = ["Grenad.SrcTie." + m for m in _mods]
+
+
 # ---------------------------------------------------------------- texts for MANIFEST.json
 
 _COMMON_NOTE = ("Trusted: Lean 4.33 kernel; axioms propext / Classical.choice / Quot.sound only (audited per theorem on every run); "
